@@ -805,7 +805,7 @@ def layout(items, rnd, intensity=0.5, kinds=LAYOUT_KINDS):
                 in_backslash = False
             elif on("backslash", intensity * 0.35):
                 used.add("backslash")
-                out.append(cur + " " * rnd.randint(1, 2) + "\\")
+                out.append(cur + " " * rnd.randint(0, 2) + "\\")      # (0: the backslash directly behind the token)
                 if on("tabindent", intensity * 0.3):
                     used.add("tabindent")   # indentation of a continuation line
                     cur = rnd.choice(["\t", "\t\t", "  \t"]) + tok
@@ -1021,8 +1021,17 @@ def addr_program(draw):
                             forms.append("via-aux:" + v)
                     lines.append([6, t])
             for _ in range(draw(st.integers(1, 4))):
-                k = draw(st.sampled_from(["put", "put", "copy", "set", "go", "do", "do", "inc"]))
-                if k == "put":
+                k = draw(st.sampled_from(["put", "put", "copy", "set", "go", "do", "do", "inc", "clock"]))
+                if k == "clock" and j + 1 >= len(frames[i]):
+                    k = "put"
+                if k == "clock":
+                    # timeout / repeat: an implied condition on the elapsed / recurred of the framer that RUNS the frame
+                    verb = draw(st.sampled_from(["timeout", "repeat"]))
+                    forms.append("implied-" + verb)
+                    direct.append([len(lines), ns, [["need0", {"form": "framerstate", "w": "elapsed" if verb == "timeout" else "recurred",
+                                                               "g": i}]]])
+                    lines.append([6, [verb, draw(st.sampled_from(["1", "2", "0.5"])) if verb == "timeout" else draw(st.sampled_from(["1", "3"]))]])
+                elif k == "put":
                     ctx["last"] = []
                     r, fm = draw(addr_ref(ctx))
                     forms.append(fm)
